@@ -27,6 +27,9 @@ TRUSTED = [
     'Uint63 literals in the correspondence files only, not in any theorem)',
     'unit conversion is not modelled: the model receives values converted by scipp (oracle), C13 checks them against exact rationals',
     'numpy tobytes()/tofile() and BytesIO vs real file: covered by running both sinks',
+    'lib/sqwcorr.py:py_structure/decode_object_array (independent Python decoder of the typed object stream, written from the format '
+    'description): evaluates the property statement in search()/replay, and keeps the package reader away from regular blocks that do '
+    'not decode (the reader follows garbage shapes); not used for the Coq comparison',
 ]
 ASSUMPTIONS = [
     'strings are ASCII (the writer stores the character count as byte length; non-ASCII text is outside the quantifier)',
@@ -156,6 +159,19 @@ def gen_cases(rng, tier):
     return cases
 
 
+def field_dtype_counts(cases):
+    """measured: how many generated calls supplied each numeric field in each dtype"""
+    out = {}
+    for c in cases:
+        for cl in c['calls']:
+            for f, dts in S.field_dtypes(cl).items():
+                f = re.sub(r'\.\d+$', '', f)
+                for dt in (dts if isinstance(dts, list) else [dts]):
+                    out.setdefault(f, {}).setdefault(dt, 0)
+                    out[f][dt] += 1
+    return out
+
+
 def correspondence(ctx):
     rng = random.Random(ctx.seed)
     cases = gen_cases(rng, ctx.tier)
@@ -220,14 +236,19 @@ def correspondence(ctx):
         'rule': 'files written by the real SqwBuilder and compared byte for byte with the Coq writer model, then checked by the '
                 'independent decoder, inside Coq: all 326 orderings x subsets of the 5 builder calls; pixel count {0,1,2,7,8,9,10,63,'
                 '64,65,1000,3000,10000} x chunk {1,2,8,9,10,N-1,N,N+1,8192,default}; byte order native/little/big; BytesIO and real '
-                'files; 1..20 runs; string lengths 0/1/255/256/70000; repeated calls; non-trivial = at least one builder call, '
+                'files; 1..20 runs; string lengths 0/1/255/256/70000; repeated calls; every numeric field of the run records (efix '
+                'scalar/per detector, en 1-d/2-d, psi, omega, dpsi, gl, gs), the source frequency and the histogram metadata '
+                '(img_scales, img_range, offsets, n_bins, dax) as float64/float32/int32/int64 (uniform per file and mixed per field, '
+                '40% non-float64 in every other class too) in units convertible to the documented ones; pixel rows float32 / int32 / '
+                'int64 / all nine float32; non-trivial = at least one builder call, '
                 'distinct = distinct (call kinds, byte order, sink, N, chunk, title length, file size)',
         'samples': [S.describe(cases[i]) for i in (0, 17, 330, 400, len(cases) - 1) if i < len(cases)],
         'disagreements': len(fails),
         'create_raised': raised,
         'bytes_compared': sum(r.get('size', 0) for r in results),
         'impl_seconds': round(t_impl, 1),
-        'per_tag': {t: sum(1 for c in cases if t in c['tags']) for t in ('sequence', 'grid', 'big', 'strings', 'runs', 'repeat', 'dnd-shape')},
+        'per_tag': {t: sum(1 for c in cases if t in c['tags']) for t in ('sequence', 'grid', 'big', 'strings', 'runs', 'repeat', 'dnd-shape', 'dtypes', 'row-dtypes')},
+        'field_dtypes': field_dtype_counts(cases),
     })
 
 
